@@ -162,7 +162,7 @@ class Rec(object):
 # forked sharded execution with crash isolation
 
 
-def _run_sharded(part, units, work, nworkers, tmpdir, per_worker_setup=None):
+def _run_sharded(part, units, work, nworkers, tmpdir, per_worker_setup=None, unit_case=None):
     """run work(unit, rec) for every unit, sharded over forked workers.
 
     Returns a merged Rec.  A worker that dies is reported as a violation of the
@@ -170,6 +170,9 @@ def _run_sharded(part, units, work, nworkers, tmpdir, per_worker_setup=None):
     """
     n = len(units)
     nworkers = max(1, min(nworkers, n))
+    if unit_case is None:
+        def unit_case(u):
+            return ("unit", u)
     total = Rec(part)
     if n == 0:
         return total
@@ -204,7 +207,7 @@ def _run_sharded(part, units, work, nworkers, tmpdir, per_worker_setup=None):
                     try:
                         work(units[i], rec)
                     except Exception:
-                        rec.fail(("unit", units[i]),
+                        rec.fail(unit_case(units[i]),
                                  "harness/unit raised: " + traceback.format_exc()[-1500:])
                 slots[w] = -2
                 del rec.tmp
@@ -237,7 +240,7 @@ def _run_sharded(part, units, work, nworkers, tmpdir, per_worker_setup=None):
         how = ("signal %d" % os.WTERMSIG(status)) if os.WIFSIGNALED(status) else (
             "exit status %d" % os.WEXITSTATUS(status))
         if cur >= 0:
-            total.fail(("unit", units[cur]),
+            total.fail(unit_case(units[cur]),
                        "worker process died (%s) while executing this unit" % how)
             rest = idxs[idxs.index(cur) + 1:]
             # results of units completed before the crash are lost: redo them too,
@@ -312,7 +315,8 @@ class Ctx(object):
 
         tmp = os.path.join(self.tmpdir, "p%d" % len(self.parts))
         os.makedirs(tmp, exist_ok=True)
-        rec = _run_sharded(name, units, work, nworkers or NWORKERS, tmp)
+        rec = _run_sharded(name, units, work, nworkers or NWORKERS, tmp,
+                           unit_case=(lambda u: u) if expand is None else None)
         shutil.rmtree(tmp, ignore_errors=True)
         part.stats = dict(
             engine=engine, units=len(units), evaluations=rec.evaluations,
